@@ -14,11 +14,47 @@ Lemma Forall_app3 : forall {A} (P : A -> Prop) l1 l2 l3,
 Proof. intros. apply Forall_app; split; [assumption|]. apply Forall_app; split; assumption. Qed.
 
 (* --- Parser::assignment: whatever else it checks, a const `did_exist_before` is fatal *)
-Lemma assign_checks_not_const : forall did c m x ss',
-  assign_checks did c m x ss' = true -> is_const did = false.
+Lemma assign_checks_not_const : forall g did c m x ss',
+  assign_checks g did c m x ss' = true -> is_const did = false.
 Proof.
-  intros did c m x ss' H. unfold assign_checks in H.
+  intros g did c m x ss' H. unfold assign_checks in H.
   destruct (is_const did); [discriminate|reflexivity].
+Qed.
+
+(* --- `modify`: with the is_callback requirement, the binding that was checked is the captured one *)
+Lemma lookup_cb_true : forall r x k cb, lookup_skip_cb r x 0 true = Some (k, cb) -> lookup_all r x = Some k.
+Proof.
+  induction r as [|s r IH]; intros x k cb H; cbn in H; [discriminate|].
+  unfold lookup_all. cbn. destruct (contains (vars s) x) as [c|].
+  - injection H as <- _. reflexivity.
+  - apply (IH x k cb). exact H.
+Qed.
+
+Lemma lookup_cb_outer : forall r x k, lookup_skip_cb r x 0 false = Some (k, true) -> lookup_outer r x = Some k.
+Proof.
+  induction r as [|s r IH]; intros x k H; cbn in H; [discriminate|].
+  destruct (contains (vars s) x) as [c|]; [discriminate|].
+  cbn [lookup_outer]. destruct (is_function s).
+  - eapply lookup_cb_true. exact H.
+  - apply IH. exact H.
+Qed.
+
+Lemma assign_checks_modify_outer : forall did c x ss,
+  assign_checks cfg_fixed did c true x (add ss x c) = true -> is_const (lookup_outer ss x) = false.
+Proof.
+  intros did c x ss H. unfold assign_checks in H.
+  destruct (is_const did); [discriminate|].
+  destruct ss as [|s r]; [cbn in H; discriminate|].
+  cbn [add lookup_skip_cb orb] in H.
+  change (is_function (mkS (kind s) (mkB x c :: vars s))) with (is_function s) in H.
+  destruct (lookup_skip_cb r x 0 (is_function s)) as [[k cb]|] eqn:E; [|discriminate].
+  cbn [chk_modify_cb cfg_fixed andb] in H.
+  destruct cb; cbn [negb] in H; [|discriminate].
+  rewrite orb_true_r in H. cbn [andb] in H.
+  destruct k; cbn [negb] in H; [discriminate|].
+  cbn [lookup_outer]. destruct (is_function s).
+  - rewrite (lookup_cb_true _ _ _ _ E). reflexivity.
+  - rewrite (lookup_cb_outer _ _ _ E). reflexivity.
 Qed.
 
 (* --- unpacking: no collision at all means no name of the list is mapped in the function *)
@@ -115,14 +151,14 @@ Proof. reflexivity. Qed.
 Lemma cs_assign : forall ss c m x rhs, check_stmt g ss (SAssign c m x rhs) =
   if c && m then None else
   if check_expr g ss rhs then
-    if assign_checks (if m then lookup_all ss x else mapped_in_function ss x) c m x (add ss x c)
+    if assign_checks g (if m then lookup_all ss x else mapped_in_function ss x) c m x (add ss x c)
     then Some (add ss x c) else None
   else None.
 Proof. reflexivity. Qed.
 Lemma cs_unpack : forall ss c xs rhs, check_stmt g ss (SUnpack c xs rhs) =
   if check_expr g ss rhs then
     match xs with
-    | [x] => if assign_checks (first_collision ss xs) c false x (add_all ss xs c) then Some (add_all ss xs c) else None
+    | [x] => if assign_checks g (first_collision ss xs) c false x (add_all ss xs c) then Some (add_all ss xs c) else None
     | _ => if is_some (first_collision ss xs) then None else Some (add_all ss xs c)
     end
   else None.
@@ -169,7 +205,7 @@ Proof. reflexivity. Qed.
 End Unfold.
 
 Lemma ws_assign : forall ss c m x rhs, writes_stmt ss (SAssign c m x rhs) =
-  writes_expr ss rhs ++ [(ss, if m then TLex x else TFun x)].
+  writes_expr ss rhs ++ (if m then [(ss, TLex x); (ss, TCap x)] else [(ss, TFun x)]).
 Proof. reflexivity. Qed.
 Lemma ws_unpack : forall ss c xs rhs, writes_stmt ss (SUnpack c xs rhs) =
   writes_expr ss rhs ++ map (fun x => (ss, TFun x)) xs.
@@ -239,12 +275,14 @@ Proof.
   - (* SAssign *) intros c m x rhs IHrhs ss ss'. rewrite cs_assign.
     destruct (c && m); [discriminate|].
     destruct (check_expr cfg_fixed ss rhs) eqn:Hr; [|discriminate].
-    destruct (assign_checks (if m then lookup_all ss x else mapped_in_function ss x) c m x (add ss x c)) eqn:Ha;
+    destruct (assign_checks cfg_fixed (if m then lookup_all ss x else mapped_in_function ss x) c m x (add ss x c)) eqn:Ha;
       [|discriminate].
     intro H. inversion H; subst ss'. split; [reflexivity|].
     rewrite ws_assign. apply Forall_app; split; [auto|].
-    constructor; [|constructor]. unfold ok_write. cbn [fst snd].
-    apply assign_checks_not_const in Ha. destruct m; cbn [resolves_const]; exact Ha.
+    destruct m.
+    + pose proof (assign_checks_modify_outer _ _ _ _ Ha) as Ho. apply assign_checks_not_const in Ha.
+      constructor; [exact Ha|]. constructor; [exact Ho|constructor].
+    + apply assign_checks_not_const in Ha. constructor; [exact Ha|constructor].
   - (* SUnpack *) intros c xs rhs IHrhs ss ss'. rewrite cs_unpack.
     destruct (check_expr cfg_fixed ss rhs) eqn:Hr; [|discriminate].
     intro H. rewrite ws_unpack. cbn [effect].
@@ -253,7 +291,7 @@ Proof.
     { destruct xs as [|x [|y r]].
       - revert H. destruct (is_some (first_collision ss [])) eqn:Hc; [discriminate|]. intro H. inversion H.
         split; [reflexivity|]. intros x [].
-      - revert H. destruct (assign_checks (first_collision ss [x]) c false x (add_all ss [x] c)) eqn:Ha; [|discriminate].
+      - revert H. destruct (assign_checks cfg_fixed (first_collision ss [x]) c false x (add_all ss [x] c)) eqn:Ha; [|discriminate].
         intro H. inversion H. split; [reflexivity|]. intros z [<-|[]].
         apply assign_checks_not_const in Ha. cbn [first_collision] in Ha.
         destruct (mapped_in_function ss x) as [k|]; [exact Ha|reflexivity].
@@ -359,3 +397,26 @@ Proof.
   intros p Hp. cbn [In] in Hp.
   destruct Hp as [<-|[<-|[<-|[<-|[]]]]]; vm_compute; auto.
 Qed.
+
+(* ------------------------------------------------------------------ `modify` through a shadowing local:
+   on the tree before fixes/const-modify-through-shadow.diff (cfg_pre_modify: the three earlier fixes are in)
+   this program is accepted although its `modify` writes the CAPTURED variable x, which is const:
+     f = fn() { const x = 5
+                g = fn() { x            # read: g captures f's x
+                           x = 1        # a new local of g shadows it
+                           if true { modify x = 7 } } }   # checked against g's local, stored to f's const *)
+Definition xx : name := 3%N.
+Definition ff : name := 4%N.
+Definition gg : name := 5%N.
+Definition wit_modify_shadow : block :=
+  BCons (SAssign false false ff (EFn []
+    (BCons (SAssign true false xx ELit)
+    (BCons (SAssign false false gg (EFn []
+       (BCons (SExpr (EVar xx))
+       (BCons (SAssign false false xx ELit)
+       (BCons (SIf ELit (BCons (SAssign false true xx ELit) BNil) BNil) BNil))))) BNil)))) BNil.
+
+Lemma modify_shadow_refuted :
+  check cfg_pre_modify wit_modify_shadow = true /\ no_const_write_b wit_modify_shadow = false /\
+  check cfg_fixed wit_modify_shadow = false.
+Proof. vm_compute. auto. Qed.
